@@ -7,7 +7,7 @@ from props import c02, c17
 
 ID = "C06"
 LEVEL = "proof"
-THEOREMS = ["C06_finished_bases_consistent_partial", "C06_concatenations", "C06_finish_succeeds_on_consistent_records", "C06_designed_string_flows", "C06_designed_string_nonvacuous", "C06_fits_check_sound", "C06_loaded_designed_string_flows"]
+THEOREMS = ["C06_finished_bases_consistent_partial", "C06_concatenations", "C06_finish_succeeds_on_consistent_records", "C06_designed_string_flows", "C06_designed_string_nonvacuous", "C06_fits_check_sound", "C06_loaded_designed_string_flows", "C06_compiled_component_designs", "C06_compiled_design_finishes", "C06_compiled_component_end_to_end", "C06_strand_flattening"]
 TRUSTED = c17.TRUSTED + ["stub NUPACK `mfe` executable (answers the all-unpaired structure) so that pepper-design-spurious can run; plain gcc build of spuriousSSM for the CLI leg"]
 ASSUMPTIONS = ["assignments are produced by the harness filler (random choice per class representative) and, in the CLI leg, by the real spuriousSSM with imax=30"]
 
@@ -236,6 +236,9 @@ def results_leg(rng, n):
                     failures.append({"kind": "disagreement", "key": "results-model-rejects", "summary": "model refuses the designed string (%s), implementation writes records (%s layout)" % (m[1], lay), "replay": rep})
                 else:
                     dist["records_compared"] += 1
+                    names = [x[0] for x in p["records"]]
+                    if len(set(names)) != len(names):        # hypothesis of the composed theorem (C06_compiled_design_finishes)
+                        failures.append({"kind": "tie", "key": "record-names", "summary": "two records of the .mfe carry one name: %r" % sorted(n for n in set(names) if names.count(n) > 1)[:3], "replay": rep})
                     a = sorted((x[0], x[1]) for x in m[1]); b = sorted((x[0], x[1]) for x in p["records"])
                     if a != b:
                         diff = [x for x in a if x not in b][:2] + [x for x in b if x not in a][:2]
